@@ -569,3 +569,22 @@ package sqlite3
 //@   ensures success-fills-every-slot: err == nil ==> (forall j int {vals[j]} :: (0 <= j && j < len(keys)) ==> vals[j] != nil)
 //@   loop key: invariant slots-filled-so-far: onTx && -1 <= rangeindex && rangeindex < len(keys) && len(vals) == len(keys) && (forall j int {vals[j]} :: (0 <= j && j <= rangeindex) ==> vals[j] != nil)
 //@   loop child: invariant still-on-the-transaction: onTx && 0 <= rangeindex && rangeindex < len(keys) && len(vals) == len(keys) && (forall j int {vals[j]} :: (0 <= j && j < rangeindex) ==> vals[j] != nil)
+
+// ---- C24: the schema helpers issue exactly the statements their (assumed) meaning above rests on. The contracts
+// above say what the statements mean (trusted: SQLite); these variants prove which statement text is sent, with which
+// argument, and that the helper's result is the scanned answer.
+//@ func tableExists@sql(db *sql.DB, name string) (r bool, err error)
+//@   safety off
+//@   opt frame=off
+//@   ghost serr error = nil
+//@   at call QueryRow#1: assert asks-the-schema-for-a-table-of-that-name: callarg0 == db && callarg1 == "SELECT COUNT(*) FROM sqlite_schema WHERE type='table' AND name=?" && len(callarg2) == 1 && cast(callarg2[0], "string") == name
+//@   at after call Scan#1: ghost serr := callresult
+//@   ensures local-result-is-the-scanned-count: err == serr && r == (count > 0)
+
+//@ func indexExists@sql(db *sql.DB, name string) (r bool, err error)
+//@   safety off
+//@   opt frame=off
+//@   ghost serr error = nil
+//@   at call QueryRow#1: assert asks-the-schema-for-an-index-of-that-name: callarg0 == db && callarg1 == "SELECT COUNT(*) FROM sqlite_schema WHERE type='index' AND name=?" && len(callarg2) == 1 && cast(callarg2[0], "string") == name
+//@   at after call Scan#1: ghost serr := callresult
+//@   ensures local-result-is-the-scanned-count: err == serr && r == (count > 0)
